@@ -609,7 +609,7 @@ pub fn generate_big_spec(seed: u64) -> Spec {
         big_cp_of_8: 2,
     };
     let (mut spec, _) = gen::gen_spec(&mut rng, &opts);
-    if spec.entry == Entry::Indices && spec.vtype == VType::U8 && spec.patterns.len() > 255 {
+    if spec.entry == Entry::Indices && matches!(spec.vtype, VType::U8 | VType::I8) && spec.patterns.len() > 127 {
         spec.vtype = VType::U32;
     }
     spec
@@ -623,7 +623,7 @@ pub fn generate(seed: u64) -> Workload {
         wide_max: 90,
         tiny: false, big_cp_of_8: 1 };
     let (mut spec, _) = gen::gen_spec(&mut rng, &opts);
-    if spec.entry == Entry::Indices && spec.vtype == VType::U8 && spec.patterns.len() > 255 {
+    if spec.entry == Entry::Indices && matches!(spec.vtype, VType::U8 | VType::I8) && spec.patterns.len() > 127 {
         spec.vtype = VType::U32;
     }
     let nh = rng.range(1, 3);
